@@ -149,7 +149,8 @@ theorem deb_sign_then_verify (H1 H2 cs ctl) (pgp : Bytes → Option Bytes) (mt s
     rw [hsig, hdg]
     rfl
 
-/-- the full statement: with a PGP layer that accepts what it signed and returns the canonical text, verification succeeds -/
+/-- the full statement: with a PGP layer that accepts what it signed and returns the canonical text, verification succeeds.
+    Proved as `deb_sign_then_verify_text` in Props/C01_DebFull.lean (text layer: Proofs/DebText.lean, `checkSig_canonText_message`). -/
 def deb_sign_then_verify_full : Prop :=
   ∀ (H1 H2 cs : Bytes → Bytes) (ctl : Bytes → Bytes → Bool) (pgp : Bytes → Option Bytes) (mt signer date role f : Bytes) (o : SignOut)
     (es : List Entry), 8 ≤ f.length → entries f = (es, .eof) → Tight (f.drop 8) es →
